@@ -56,3 +56,11 @@ Theorem C16_keyword_case : forall s s',
   to_upper (firstn (many is_ident_part s) s) = to_upper (firstn (many is_ident_part s') s') -> r_kind (word_at s) = r_kind (word_at s').
 Proof. exact word_kind_case. Qed.
 Print Assumptions C16_keyword_case.
+
+(* ---- the type grammar: the answer of ParseType's model depends on the KINDS of the tokens and the NAMES of identifiers only -- positions,
+   keyword spelling, quoting; with norm = to_upper also the letter case of identifiers (builtin type names are recognised in any case) ---- *)
+From Verif Require Import Parse.TypeModel Parse.TypeRespell.
+Theorem C16_type_respelling : forall norm, (forall a b, norm a = norm b -> to_upper a = to_upper b) ->
+  forall ts ts', TypeRespell.tssim norm ts ts' -> rsimT norm (parse_type ts) (parse_type ts').
+Proof. exact parse_type_sim. Qed.
+Print Assumptions C16_type_respelling.
